@@ -37,10 +37,10 @@ compiles. -/
 theorem structure_facts :
     Ring.lockCount = 3 ∧ Ring.broadcastCount = 2 ∧ Ring.waitCount = 1 ∧
     Ring.pushLocksBeforeBuffer = true ∧ Ring.closeLocksAndBroadcastsAfterUnlock = true ∧
-    Ring.pullRetestsInLoop = true ∧ Ring.condUsesRingMutex = true ∧
+    Ring.pullRetestsInLoop = true ∧ Ring.resetRestoresEverything = true ∧ Ring.condUsesRingMutex = true ∧
     Ring.newRejectsNonPowerOfTwo = true ∧ Ring.runInnerStopsOnError = true ∧
     Ring.closeCancelsClosesJoins = true ∧ Ring.runClosesDone = true ∧
-    Ring.pushDelegatesToRing = true := by decide
+    Ring.pushDelegatesToRing = true ∧ Ring.startSetsRunningAndSpawns = true := by decide
 
 /-! ## 1. Sequential ring: invariant and refinement to the bounded FIFO -/
 
